@@ -323,3 +323,4 @@ func vRunUntilCrash(f func()) bool      { f(); return false }
 func vSchedFork(on bool) {}
 func vFSOverwrites() int { return 0 }
 func vFSWrite(path string, data []byte) { os.WriteFile(path, data, 0644) }
+func vLockset(on bool) {}
